@@ -42,6 +42,7 @@ type C12Scenario struct {
 	Incs   []C12Inc  `json:"incs"`
 	Fault  *C12Fault `json:"fault,omitempty"`
 	Yields int       `json:"yields"`
+	Batch  int       `json:"batch,omitempty"` // WithReplayBatchSize when the store is paged
 }
 
 func genC12(rt *rapid.T) core.Scenario {
@@ -49,6 +50,12 @@ func genC12(rt *rapid.T) core.Scenario {
 	if sc.Store.Kind == "sqlite" {
 		sc.Store.StreamBatch = rapid.SampledFrom([]int{0, 0, 2}).Draw(rt, "streamBatch")
 	}
+	if rapid.IntRange(0, 4).Draw(rt, "paged") == 4 {
+		sc.Store.HideStreamer = true
+		sc.Store.ShortReads = rapid.Bool().Draw(rt, "shortReads")
+		sc.Batch = rapid.SampledFrom([]int{0, 2, 3}).Draw(rt, "replayBatch")
+	}
+	long := rapid.IntRange(0, 5).Draw(rt, "long") == 5 // histories that push the log past 10 entries
 	ns := rapid.IntRange(1, 2).Draw(rt, "nSubs")
 	for i := 0; i < ns; i++ {
 		sc.Subs = append(sc.Subs, rapid.IntRange(0, numStaticShapes-1).Draw(rt, "subShape"))
@@ -57,6 +64,9 @@ func genC12(rt *rapid.T) core.Scenario {
 	for n := 0; n < ni; n++ {
 		inc := C12Inc{CrashAtOp: -1}
 		np := rapid.IntRange(0, 6).Draw(rt, "nPubSteps")
+		if long {
+			np = rapid.IntRange(6, 14).Draw(rt, "nPubStepsLong")
+		}
 		for i := 0; i < np; i++ {
 			if rapid.IntRange(0, 3).Draw(rt, "pubYield") == 3 {
 				inc.Publisher = append(inc.Publisher, C12Step{Kind: "yield"})
@@ -127,6 +137,7 @@ func (sc *C12Scenario) Execute(t *testing.T) *core.Outcome {
 	var log []*eventbus.StoredEvent
 	crashed := map[int]bool{}
 	faultFired := false
+	shortReads := 0
 	body := func() {
 		env := newStoreEnv()
 		defer env.Close()
@@ -193,7 +204,12 @@ func (sc *C12Scenario) Execute(t *testing.T) *core.Outcome {
 			for k, v := range durable {
 				savedAtStart[n][k] = v
 			}
-			bus := eventbus.New(eventbus.WithStore(fc.wrap(false)))
+			fc.ShortReads = sc.Store.ShortReads
+			bopts := []eventbus.Option{eventbus.WithStore(fc.wrap(sc.Store.HideStreamer))}
+			if sc.Batch > 0 {
+				bopts = append(bopts, eventbus.WithReplayBatchSize(sc.Batch))
+			}
+			bus := eventbus.New(bopts...)
 			for k := range subActive {
 				delete(subActive, k)
 			}
@@ -261,11 +277,12 @@ func (sc *C12Scenario) Execute(t *testing.T) *core.Outcome {
 			}
 		}
 		runInc(len(sc.Incs)+1, C12Inc{CrashAtOp: -1}, true)
-		for _, v := range fired {
-			if v > 0 {
+		for k, v := range fired {
+			if v > 0 && k != "short-read" {
 				faultFired = true
 			}
 		}
+		shortReads = fired["short-read"]
 		var err error
 		st := memInner
 		if kind != "mem" {
@@ -304,7 +321,10 @@ func (sc *C12Scenario) Execute(t *testing.T) *core.Outcome {
 		_ = n
 		out.Fault("process-crash-at-store-op")
 	}
-	if faultFired {
+	if shortReads > 0 {
+		out.Probe("store-returned-short-pages")
+	}
+	if faultFired && sc.Fault != nil {
 		out.Fault("store-op-" + sc.Fault.Op + map[bool]string{true: "-lost-ack", false: "-fails"}[sc.Fault.Lost])
 	}
 	out.Nontrivial = len(crashed) > 0 || faultFired || len(sc.Incs) > 1
@@ -405,6 +425,11 @@ func (sc *C12Scenario) Execute(t *testing.T) *core.Outcome {
 					out.V("out-of-log-order", "[%s] subscription %s received event %d (log position %d) after an event at position %d in incarnation %d", sc.Store, subID, d.Ev, p, last, n)
 				}
 				last = p
+				// exactly once overall: without any crash or store fault in the run, an event handled in an
+				// earlier incarnation (which then stopped cleanly) is never delivered again
+				if firstInc[d.Ev] < n && len(crashed) == 0 && !faultFired && !pubDuringSub[d.Ev][si] {
+					out.VS("redelivered-after-clean-stop", "redelivered-clean", "[%s] subscription %s received event %d (log position %d) in incarnation %d and again in incarnation %d, although no process died and no store operation failed in this history (saved offset at the start of incarnation %d: %q)", sc.Store, subID, d.Ev, p, firstInc[d.Ev], n, n, savedAtStart[n][subID])
+				}
 				// bounded redelivery
 				if firstInc[d.Ev] < n && known && p <= startPos {
 					out.VS("redelivered-saved-event", "redelivered/"+feat(d.Ev), "[%s] subscription %s received event %d (log position %d) again in incarnation %d although its saved offset at the start of that incarnation was already at position %d (fault %+v)", sc.Store, subID, d.Ev, p, n, startPos, sc.Fault)
